@@ -571,6 +571,9 @@ VERIF_TARGET(c46_miniscript, init, 24, 200,
         // xonly-hash -> key lookups (pkh in tapscript) come from the spend data, as a PSBT would provide them
         for (unsigned i : w.known_pubs) { XOnlyPubKey x{g.pubs[i]}; sigdata.tap_pubkeys.emplace(Hash160(x), x); }
         unsigned internal = unsigned(s.index(NKEYS));
+        if (w.sign_keys.count(internal) && s.chance(200)) { // mostly an internal key nobody can sign for, so that the script path decides
+            for (unsigned i = 0; i < NKEYS; ++i) if (!w.sign_keys.count(i)) { internal = i; break; }
+        }
         TaprootBuilder builder;
         other_leaf = s.boolean();
         if (other_leaf) {
